@@ -1,8 +1,10 @@
 """C13 - meaning-preserving edits leave the findings unchanged up to line shift.
 
 Generator: projects built from the seed library (vf/seeds.py: single files of 2-5 planted constructs in py/ts/js/rs,
-DRY and stringly-typed file sets, plus vf/render/c13_extra.py: a class whose LOC sits at the srp.max_loc limit and a
-"decoy" ignore-next-line directive) x a sequence of 1-4 edits (vf/gen/c13_edits.py): blank line(s), directive-free
+DRY and stringly-typed file sets, plus vf/render/c13_extra.py: a class whose LOC sits at the srp.max_loc limit, a
+"decoy" ignore-next-line directive, and `stmtlimit`: getter-like Python methods whose multi-statement bodies sit at /
+next to the documented statement-count limit method-property.max_body_statements (2..5; one-line statements, a
+parenthesised two-line return, a docstring) - a limit counted in statements, which inserted lines must not move) x a sequence of 1-4 edits (vf/gen/c13_edits.py): blank line(s), directive-free
 comment line, trailing whitespace, consistent re-indent, LF<->CRLF, BOM add/remove, appended finding-free code,
 consistent rename of locals in snippets of rules that do not inspect names.
 
@@ -10,6 +12,10 @@ Oracle (per edit step, so a sequence is a chain of pairs): for every command run
 the violations before it as multisets of (rule_id, file, line + delta(line), message', column) where delta(l) is the
 number of lines inserted strictly above l, message' has `file:line` references shifted the same way and renamed
 identifiers substituted; columns are only compared for edits that cannot move columns.
+
+Matrices (one edit per case): language x family x whole-file edit; and language x family variant x EVERY insertion
+point below the header x {comment line, 2 blank lines}, so that every gap between two body statements and every line
+break inside a multi-line statement of every planted construct receives an insertion (insertion_cells).
 """
 from __future__ import annotations
 
@@ -30,15 +36,18 @@ TECHNIQUE = ("Hypothesis-generated seed programs x sequences of meaning-preservi
              "consecutive versions are equal up to the exact line shift (two-sided, per command)")
 RULE = (
     "case = project (single file of 2-5 planted constructs in py/ts/js/rs incl. a class at the srp.max_loc limit and an "
-    "ignore-next-line decoy and context-exempt literals (UPPER_CASE constants, range()), or a 2-3 file DRY / stringly-typed set; all with the documented file header so header-sensitive "
+    "ignore-next-line decoy and context-exempt literals (UPPER_CASE constants, range()) and Python getter methods with 1-6-statement bodies "
+    "at the method-property.max_body_statements limit, or a 2-3 file DRY / stringly-typed set; all with the documented file header so header-sensitive "
     "linters only see edits below it) + initial layout (LF/CRLF, BOM, final newline) + 1-4 edits + 4-7 commands (those of the planted "
-    "constructs plus drawn others). Every consecutive pair of versions is compared for every command. Non-trivial: the version "
+    "constructs plus drawn others); plus two one-edit matrices: family x whole-file edit, and family variant x every insertion point "
+    "below the header x (comment line | 2 blank lines). Every consecutive pair of versions is compared for every command. Non-trivial: the version "
     "before some effective edit has >= 1 violation, and for a line-inserting edit there is a violation below and one above the "
     "insertion point (for whole-file edits: >= 2 violations). Distinct = (project kind, language, planted families, edit-kind sequence)."
 )
 ASSUMPTIONS = [
     "comment lines carry directive-free prose from a fixed pool (no thailint/noqa/type:/pylint/eslint/TODO/header keywords)",
     "nothing is inserted inside the header block, directly below a line that carries a suppression directive, or inside a multi-line token (the seeds have none below the header)",
+    "a blank or comment line between two lines of a bracketed multi-line expression is not part of the program (Python ignores both inside brackets)",
     "re-indent maps every leading 4-space unit below the header to 2 spaces / 8 spaces / a tab (tab not for Python); header docstring untouched",
     "rename touches only parameters/locals ([a-z]+digits, not after '.', not called, not inside string literals) of snippets whose rule does not inspect names; messages are compared after the same substitution",
     "for a DRY/stringly message the `file:a-b` references are expected to shift like line numbers (a and b each by the lines inserted above them)",
@@ -56,7 +65,8 @@ OTHER_CMDS = {
     "rs": ["nesting", "srp", "magic-numbers", "unwrap-abuse", "clone-abuse", "blocking-async"],
 }
 OTHER_CMDS["js"] = OTHER_CMDS["ts"]
-FAM_CMD = dict(seeds.FAMILY_CMD, srploc="srp", decoy="magic-numbers", exempt="magic-numbers", cloneuse="clone-abuse", filler=None)
+FAM_CMD = dict(seeds.FAMILY_CMD, srploc="srp", decoy="magic-numbers", exempt="magic-numbers", cloneuse="clone-abuse", stmtlimit="method-property",
+               filler=None)
 RUN_LEN = 5  # statements in a planted duplicate run (seeds.dry_set default)
 REF = re.compile(r"([\w./-]+\.(?:py|ts|js|rs)|\btool):(\d+)(?:-(\d+))?")  # `tool` = the extension-less script of the "script" layout
 
@@ -65,7 +75,13 @@ REF = re.compile(r"([\w./-]+\.(?:py|ts|js|rs)|\btool):(\d+)(?:-(\d+))?")  # `too
 
 
 def families(lang):
-    return seeds.families(lang) + ["srploc", "decoy", "exempt"] + (["cloneuse", "cloneuse"] if lang == "rs" else [])
+    return (seeds.families(lang) + ["srploc", "decoy", "exempt"] + (["cloneuse", "cloneuse"] if lang == "rs" else [])
+            + (["stmtlimit", "stmtlimit"] if lang == "py" else []))
+
+
+def stmt_limit(var):
+    """(max_body_statements the file is linted with, body shape) of a stmtlimit part"""
+    return 2 + (var // len(extra.STMT_SHAPES)) % 4, var % len(extra.STMT_SHAPES)
 
 
 def build(case):
@@ -89,6 +105,12 @@ def build(case):
                 sn = extra.exempt(lang, u)
             elif fam == "cloneuse":
                 sn = extra.cloneuse(lang, u)
+            elif fam == "stmtlimit":
+                # the first such part fixes the limit of the file (3 = the documented default: left unconfigured)
+                limit = cfg.get("method-property", {}).get("max_body_statements") or stmt_limit(part["var"])[0]
+                if limit != 3:
+                    cfg["method-property"] = {"max_body_statements": limit}
+                sn = extra.stmtlimit(lang, u, limit, stmt_limit(part["var"])[1])
             elif fam == "filler":
                 sn = seeds.filler(lang, u)
             else:
@@ -405,11 +427,45 @@ def matrix_cells():
     return cells
 
 
+def family_variants(lang, fam):
+    """The `var` values of a family enumerated by the insertion matrix: the first form of a seed family (the drawn cases
+    vary it), and for the statement-limit family every body shape at the default limit (3) and at a configured one (2)."""
+    if fam == "stmtlimit":
+        return [v for v in range(4 * len(extra.STMT_SHAPES)) if stmt_limit(v)[0] in (2, 3)]
+    return [0]
+
+
+def insertion_cells():
+    """Every language x every planted family (each variant) x EVERY insertion point below the header - above the
+    construct, between any two of its lines (so between the statements of every body and inside every multi-line
+    statement), after it - x {one comment line at the next line's indentation, two blank lines}; one edit per case.
+    The drawn cases reach positions inside a construct only by an offset from its reported line."""
+    cells = []
+    for lang in LANGS:
+        for fam in sorted(set(families(lang))):
+            for var in family_variants(lang, fam):
+                part = {"fam": fam, "var": var}
+                if fam == "srploc":
+                    part["d"] = 0
+                cmd = FAM_CMD[fam]
+                base = {"kind": "single", "lang": lang, "parts": [part], "gap": 1, "layout": {},
+                        "cmds": [cmd]}
+                st = build({**base, "edits": []})[0][0]
+                for pos in range(ed.positions(st)):
+                    cells.append({**base, "edits": [{"k": "comment", "f": 0, "p": pos, "t": pos % 10, "ind": 1}]})
+                    cells.append({**base, "edits": [{"k": "blank", "f": 0, "p": pos, "n": 1, "w": 0}]})
+    return cells
+
+
 def run(ctx):
     cells = matrix_cells()
     mine = ctx.my_cells(cells)
     done = ctx.each(mine, check)
     ctx.stats.extra.setdefault("matrix", {})["language x planted family x whole-file edit (re-indent to each unit, CRLF, BOM)"] = {"cells": len(mine), "done": done}
+    cells = insertion_cells()
+    mine = ctx.my_cells(cells)
+    done = ctx.each(mine, check)
+    ctx.stats.extra["matrix"]["language x planted family variant x every insertion point below the header x (comment line, 2 blank lines)"] = {"cells": len(mine), "done": done}
     ctx.explore(cases(), check, max_examples=ctx.n(70, 1500))
 
 
